@@ -424,6 +424,11 @@ def run_check(prop, spec, tier, verif_seed, workers=None):
         print('%s: %s' % (sig, sim.violation[1]))
         print('VIOLATION property=%s replay=%s' % (prop, path))
         exit_code = 1
+    for k in known.entries(prop):
+        if k['sig'] not in known_seen:
+            # listed, and none of the runs sampled this time reached it (the gated ones are rare): still said, so that the
+            # line does not depend on the sample; the evidence file lists only those that were seen
+            print('KNOWN-FINDING: property=%s %s [%s] (listed; not reached by the runs sampled this time)' % (prop, k['text'], k['sig']))
     if agg['mismatches']:
         agg['harness'].append((agg['mismatches'][0], 'determinism recheck mismatch on %d runs' % len(agg['mismatches'])))
     if agg['runs'] == 0:
